@@ -729,3 +729,57 @@ func init() {
 		return nil
 	})
 }
+
+func init() {
+	reg("github.com/kelindar/binary.ToBytes", func(ex *Exec, caller *frame, fn *ssa.Function, args []Value) Value {
+		s := args[0].(Str)
+		if len(s.B) == 0 {
+			return Slice{}
+		}
+		return Slice{V: s.B}
+	})
+	reg("github.com/kelindar/binary.ToString", func(ex *Exec, caller *frame, fn *ssa.Function, args []Value) Value {
+		p := args[0].(*Value)
+		s := (*p).(Slice)
+		return Str{B: s.V[:len(s.V):len(s.V)]}
+	})
+}
+
+func init() {
+	// randomness = arbitrary values (symbolic draws named rand#k); concrete during package init
+	reg("crypto/rand.Read", func(ex *Exec, caller *frame, fn *ssa.Function, args []Value) Value {
+		b := args[0].(Slice).V
+		for i := range b {
+			if ex.inInit > 0 {
+				b[i] = ex.tb.Const(8, uint64(0xA5^i))
+			} else {
+				b[i] = ex.newDraw(ex.occName("rand8"), 8)
+			}
+		}
+		return Tuple{ex.tb.Const(64, uint64(len(b))), Iface{}}
+	})
+	rnd := func(w int, bound func(ex *Exec, args []Value) *term.T, signedNonNeg bool) intrinsic {
+		return func(ex *Exec, caller *frame, fn *ssa.Function, args []Value) Value {
+			if ex.inInit > 0 {
+				return ex.tb.Const(w, 1)
+			}
+			x := ex.newDraw(ex.occName(fmt.Sprintf("rand%d", w)), w)
+			if signedNonNeg {
+				ex.addPC(ex.tb.Cmp(term.OSle, ex.tb.Const(w, 0), x))
+			}
+			if bound != nil {
+				ex.addPC(ex.tb.Cmp(term.OSlt, x, bound(ex, args)))
+			}
+			return x
+		}
+	}
+	arg0 := func(ex *Exec, args []Value) *term.T { return args[0].(*term.T) }
+	reg("math/rand.Int31n", rnd(32, arg0, true))
+	reg("math/rand.Int63n", rnd(64, arg0, true))
+	reg("math/rand.Intn", rnd(64, arg0, true))
+	reg("math/rand.Int31", rnd(32, nil, true))
+	reg("math/rand.Int63", rnd(64, nil, true))
+	reg("math/rand.Int", rnd(64, nil, true))
+	reg("math/rand.Uint32", rnd(32, nil, false))
+	reg("math/rand.Uint64", rnd(64, nil, false))
+}
